@@ -1054,7 +1054,7 @@ package channel
 // third-party unmarshaler refused its bytes.
 //@ pred allocWF(x Allocation) = validAlloc(x) && nonNilAssets(x.Assets) && nonNilBalances(x.Balances) && nonNilLocked(x.Locked) && len(x.Backends) == len(x.Assets) &&
 //@   (forall i int :: 0 <= i && i < len(x.Assets) ==> has(backend, x.Backends[i]) && backend[x.Backends[i]] != nil && marshalLen(x.Assets[i]) <= 65535)
-//@ pred allocEq(y Allocation, x Allocation) = len(y.Assets) == len(x.Assets) && len(y.Backends) == len(x.Assets) && len(y.Locked) == len(x.Locked) &&
+//@ pred allocRT(y Allocation, x Allocation) = len(y.Assets) == len(x.Assets) && len(y.Backends) == len(x.Assets) && len(y.Locked) == len(x.Locked) &&
 //@   (forall i int :: 0 <= i && i < len(x.Assets) ==> y.Backends[i] == x.Backends[i] && y.Assets[i] != nil && allocated(payload(y.Assets[i])) && unmarshalledFrom(y.Assets[i]) == marshalOf(x.Assets[i])) &&
 //@   balEq(y.Balances, x.Balances) && (forall l int :: 0 <= l && l < len(x.Locked) ==> subEq(y.Locked[l], x.Locked[l]))
 //@ pred allocHead(w io.Writer, p int, x Allocation) = wtokKind(w, p) == tokkind("uint16") && wtokVal(w, p) == len(x.Assets) &&
@@ -1065,7 +1065,7 @@ package channel
 //@ pred allocBals(w io.Writer, p int, x Allocation) = wtokKind(w, p + 3 + 2 * len(x.Assets)) == tokkind("sum:channel.Balances") && wtokVal(w, p + 3 + 2 * len(x.Assets)) == sumOf(x.Balances)
 //@ pred allocLocked(w io.Writer, p int, x Allocation, n int) = forall m int :: p + 4 + 2 * len(x.Assets) <= m && m < p + 4 + 2 * len(x.Assets) + n ==>
 //@   wtokKind(w, m) == tokkind("sum:channel.SubAlloc") && wtokVal(w, m) == sumOf(x.Locked[m - (p + 4 + 2 * len(x.Assets))])
-//@ codec Allocation wf allocWF eq allocEq by verifRoundTripAllocation
+//@ codec Allocation wf allocWF eq allocRT by verifRoundTripAllocation
 //@ func verifRoundTripAllocation
 //@   tokenmodel
 //@   requires w0 != nil && r0 != nil && allocWF(x)
@@ -1073,7 +1073,7 @@ package channel
 //@   inlines (Allocation).Encode, (*Allocation).Decode
 //@   ensures encErr == nil && !rfail(r0) && !rejected(r0) ==> decErr == nil
 //@   ensures encErr == nil && decErr == nil ==> !desync(r0) && rcount(r0) - old(rcount(r0)) == wcount(w0) - old(wcount(w0))
-//@   ensures encErr == nil && decErr == nil ==> allocEq(y, x)
+//@   ensures encErr == nil && decErr == nil ==> allocRT(y, x)
 //@   loop (Allocation).Encode.1
 //@     invariant wcount(w) == old(wcount(w)) + 3 + 2 * $i && allocHead(w, old(wcount(w)), a) && allocAssets(w, old(wcount(w)), a, $i)
 //@   loop (Allocation).Encode.2
@@ -1098,7 +1098,7 @@ package channel
 // value it unmarshals into. Whether the resolver knows the app is outside this lemma (no "fails only if" clause).
 //@ pred stateWFc(x State) = allocWF(x.Allocation) && x.App != nil && x.Data != nil && marshalLen(x.Data) <= 65535 &&
 //@   (!isNoApp(x.App) ==> marshalLen(appDef(x.App)) <= 65535)
-//@ pred stateEqc(y State, x State) = y.ID == x.ID && y.Version == x.Version && y.IsFinal == x.IsFinal && allocEq(y.Allocation, x.Allocation) &&
+//@ pred stateEqc(y State, x State) = y.ID == x.ID && y.Version == x.Version && y.IsFinal == x.IsFinal && allocRT(y.Allocation, x.Allocation) &&
 //@   (isNoApp(x.App) ==> isNoApp(y.App)) && y.App != nil && y.Data != nil && unmarshalledFrom(y.Data) == marshalOf(x.Data)
 //@ codec State wf stateWFc eq stateEqc by verifRoundTripState
 //@ func verifRoundTripState
